@@ -793,14 +793,14 @@ fn opaque_error(span: Span) -> (r: Error) ensures r.span() == span { unimplement
 //@   props C07
 //@   ret r
 //@   spec
-    ensures r == Ok::<RetNValue, Vec<Error>>((None, value)),
+    ensures r == Ok::<RetNValue, Vec<Error>>((None, value)), //# C07 no_ret.spec.aux1
 //@   endspec
 //@ end
 //@ fn sylt-compiler/src/typechecker.rs with_ret
 //@   props C07
 //@   ret r
 //@   spec
-    ensures r == Ok::<RetNValue, Vec<Error>>((ret, value)),
+    ensures r == Ok::<RetNValue, Vec<Error>>((ret, value)), //# C07 with_ret.spec.aux1
 //@   endspec
 //@ end
 
@@ -867,14 +867,14 @@ impl TypeChecker {
 //@   spec
         requires
             old(self).inv(), //# C02 push_type.pre.inv
-            ids_in_range(ty, old(self).types@.len() as int + 1),
+            ids_in_range(ty, old(self).types@.len() as int + 1), //# C02,C07 push_type.spec.aux1
         ensures
             final(self).inv(), //# C02 push_type.keeps_invariant
-            old(self).vars_valid() ==> final(self).inv2(),
+            old(self).vars_valid() ==> final(self).inv2(), //# C02,C07 push_type.spec.aux2
             r.0 == old(self).types@.len(), //# C02 push_type.returns_fresh_id
-            final(self).types@.len() == old(self).types@.len() + 1,
+            final(self).types@.len() == old(self).types@.len() + 1, //# C02,C07 push_type.spec.aux3
             push_frame(old(self).types@, final(self).types@, ty), //# C02 push_type.appends_one_singleton_class_and_touches_nothing_else
-            final(self).variables == old(self).variables,
+            final(self).variables == old(self).variables, //# C07 push_type.spec.aux4
 //@   endspec
 //@   ghost after
 //@|         });
@@ -896,12 +896,12 @@ impl TypeChecker {
             wf_forest(old(self).types@), //# C02 find.pre.forest
             (a_.0 as int) < old(self).types.len(), //# C07 find.pre.id_in_range
         ensures
-            final(self).types.len() == old(self).types.len(),
-            wf_forest(final(self).types@),
+            final(self).types.len() == old(self).types.len(), //# C07 find.spec.aux1
+            wf_forest(final(self).types@), //# C02,C07 find.spec.aux2
             old(self).inv() ==> final(self).inv(), //# C02 find.keeps_invariant
-            old(self).inv2() ==> final(self).inv2(),
+            old(self).inv2() ==> final(self).inv2(), //# C02,C07 find.spec.aux3
             same_graph(old(self).types@, final(self).types@), //# C02 find.no_observable_change
-            forall|o: Seq<TypeNode>| #[trigger] same_graph(o, old(self).types@) ==> same_graph(o, final(self).types@),
+            forall|o: Seq<TypeNode>| #[trigger] same_graph(o, old(self).types@) ==> same_graph(o, final(self).types@), //# C02,C07 find.spec.aux4
             tview(final(self).types@) == tview(old(self).types@), //# C02 find.view_unchanged
             final(self).variables == old(self).variables, //# C02 find.frame_variables
             (res.0 as int) < final(self).types.len(), //# C07 find.result_in_range
@@ -914,10 +914,10 @@ impl TypeChecker {
 //@   endghost
 //@   loop 1
             invariant
-                self.types@ == ts0, hok(ts0, h), (root as int) < ts0.len(), (a as int) < ts0.len(),
-                rep(ts0, h, root as int) == rep(ts0, h, a as int),
-                self.variables == old(self).variables,
-            ensures ts0[root as int].parent is None,
+                self.types@ == ts0, hok(ts0, h), (root as int) < ts0.len(), (a as int) < ts0.len(), //# C02,C07 find.loop1.aux1
+                rep(ts0, h, root as int) == rep(ts0, h, a as int), //# C02,C07 find.loop1.aux2
+                self.variables == old(self).variables, //# C07 find.loop1.aux3
+            ensures ts0[root as int].parent is None, //# C07 find.loop1.aux4
             decreases h[root as int]
 //@   endloop
 //@   ghost before-loop 2
@@ -926,15 +926,15 @@ impl TypeChecker {
 //@   endghost
 //@   loop 2
             invariant
-                self.types.len() == ts0.len(), hok(ts0, h), hok(self.types@, h),
-                (node as int) < ts0.len(), (root as int) < ts0.len(),
-                rep(ts0, h, node as int) == root as int,
-                ts0[root as int].parent is None, self.types@[root as int].parent is None,
-                forall|i: int| 0 <= i < ts0.len() ==> rep(self.types@, h, i) == rep(ts0, h, i),
+                self.types.len() == ts0.len(), hok(ts0, h), hok(self.types@, h), //# C02,C07 find.loop2.aux1
+                (node as int) < ts0.len(), (root as int) < ts0.len(), //# C07 find.loop2.aux2
+                rep(ts0, h, node as int) == root as int, //# C02,C07 find.loop2.aux3
+                ts0[root as int].parent is None, self.types@[root as int].parent is None, //# C02,C07 find.loop2.aux4
+                forall|i: int| 0 <= i < ts0.len() ==> rep(self.types@, h, i) == rep(ts0, h, i), //# C02,C07 find.loop2.aux5
                 forall|i: int| 0 <= i < ts0.len() ==>
                     (#[trigger] self.types@[i]).ty == ts0[i].ty && self.types@[i].size == ts0[i].size
-                    && self.types@[i].constraints == ts0[i].constraints,
-                self.variables == old(self).variables,
+                    && self.types@[i].constraints == ts0[i].constraints, //# C02,C07 find.loop2.aux6
+                self.variables == old(self).variables, //# C07 find.loop2.aux7
             decreases h[node as int]
 //@   endloop
 //@   ghost loop-body 2
@@ -968,19 +968,19 @@ impl TypeChecker {
 //@   ret r
 //@   spec
         requires
-            wf_forest(old(self).types@),
+            wf_forest(old(self).types@), //# C02,C07 find_node.spec.aux1
             (a.0 as int) < old(self).types.len(), //# C07 find_node.pre.id_in_range
         ensures
-            final(self).types.len() == old(self).types.len(),
-            wf_forest(final(self).types@),
+            final(self).types.len() == old(self).types.len(), //# C07 find_node.spec.aux2
+            wf_forest(final(self).types@), //# C02,C07 find_node.spec.aux3
             old(self).inv() ==> final(self).inv(), //# C02 find_node.keeps_invariant
-            old(self).inv2() ==> final(self).inv2(),
+            old(self).inv2() ==> final(self).inv2(), //# C02,C07 find_node.spec.aux4
             same_graph(old(self).types@, final(self).types@), //# C02 find_node.no_observable_change
-            forall|o: Seq<TypeNode>| #[trigger] same_graph(o, old(self).types@) ==> same_graph(o, final(self).types@),
+            forall|o: Seq<TypeNode>| #[trigger] same_graph(o, old(self).types@) ==> same_graph(o, final(self).types@), //# C02,C07 find_node.spec.aux5
             tview(final(self).types@) == tview(old(self).types@), //# C02 find_node.view_unchanged
             final(self).variables == old(self).variables, //# C02 find_node.frame_variables
             *r == final(self).types@[rep0(old(self).types@, a.0 as int)], //# C02 find_node.returns_root_node
-            r.ty == ty_of(old(self).types@, a),
+            r.ty == ty_of(old(self).types@, a), //# C02,C07 find_node.spec.aux6
 //@   endspec
 //@   ghost entry
         proof { lemma_rep0_props(self.types@, a.0 as int); }
@@ -993,19 +993,19 @@ impl TypeChecker {
 //@   ret r
 //@   spec
         requires
-            wf_forest(old(self).types@),
+            wf_forest(old(self).types@), //# C02,C07 find_type.spec.aux1
             (a.0 as int) < old(self).types.len(), //# C07 find_type.pre.id_in_range
         ensures
-            final(self).types.len() == old(self).types.len(),
-            wf_forest(final(self).types@),
+            final(self).types.len() == old(self).types.len(), //# C07 find_type.spec.aux2
+            wf_forest(final(self).types@), //# C02,C07 find_type.spec.aux3
             old(self).inv() ==> final(self).inv(), //# C02 find_type.keeps_invariant
-            old(self).inv2() ==> final(self).inv2(),
+            old(self).inv2() ==> final(self).inv2(), //# C02,C07 find_type.spec.aux4
             same_graph(old(self).types@, final(self).types@), //# C02 find_type.no_observable_change
-            forall|o: Seq<TypeNode>| #[trigger] same_graph(o, old(self).types@) ==> same_graph(o, final(self).types@),
+            forall|o: Seq<TypeNode>| #[trigger] same_graph(o, old(self).types@) ==> same_graph(o, final(self).types@), //# C02,C07 find_type.spec.aux5
             tview(final(self).types@) == tview(old(self).types@), //# C02 find_type.view_unchanged
             final(self).variables == old(self).variables, //# C02 find_type.frame_variables
             r == ty_of(old(self).types@, a), //# C02 find_type.returns_class_type
-            r == tview(old(self).types@)[a.0 as int],
+            r == tview(old(self).types@)[a.0 as int], //# C02,C07 find_type.spec.aux6
             old(self).inv() ==> ids_in_range(r, old(self).types@.len() as int), //# C07 find_type.result_ids_in_range
 //@   endspec
 //@   ghost entry
@@ -1019,15 +1019,15 @@ impl TypeChecker {
 //@   ret r
 //@   spec
         requires
-            wf_forest(old(self).types@),
-            (a.0 as int) < old(self).types.len(),
+            wf_forest(old(self).types@), //# C02,C07 is_void.spec.aux1
+            (a.0 as int) < old(self).types.len(), //# C07 is_void.spec.aux2
         ensures
-            final(self).types.len() == old(self).types.len(),
-            wf_forest(final(self).types@),
+            final(self).types.len() == old(self).types.len(), //# C07 is_void.spec.aux3
+            wf_forest(final(self).types@), //# C02,C07 is_void.spec.aux4
             old(self).inv() ==> final(self).inv(), //# C02 is_void.keeps_invariant
-            old(self).inv2() ==> final(self).inv2(),
+            old(self).inv2() ==> final(self).inv2(), //# C02,C07 is_void.spec.aux5
             same_graph(old(self).types@, final(self).types@), //# C02 is_void.no_observable_change
-            forall|o: Seq<TypeNode>| #[trigger] same_graph(o, old(self).types@) ==> same_graph(o, final(self).types@),
+            forall|o: Seq<TypeNode>| #[trigger] same_graph(o, old(self).types@) ==> same_graph(o, final(self).types@), //# C02,C07 is_void.spec.aux6
             tview(final(self).types@) == tview(old(self).types@), //# C02 is_void.view_unchanged
             final(self).variables == old(self).variables, //# C02 is_void.frame_variables
             r == (ty_of(old(self).types@, a) is Void), //# C03 is_void.exact
@@ -1053,9 +1053,9 @@ impl TypeChecker {
         ensures
             final(self).inv(), //# C02 add.keeps_invariant
             same_graph(old(self).types@, final(self).types@), //# C03 add.no_observable_change
-            forall|o: Seq<TypeNode>| #[trigger] same_graph(o, old(self).types@) ==> same_graph(o, final(self).types@),
+            forall|o: Seq<TypeNode>| #[trigger] same_graph(o, old(self).types@) ==> same_graph(o, final(self).types@), //# C07 add.spec.aux1
             tview(final(self).types@) == tview(old(self).types@), //# C03 add.view_unchanged
-            final(self).variables == old(self).variables,
+            final(self).variables == old(self).variables, //# C07 add.spec.aux2
             r is Ok <==> add_ok_all(tview(old(self).types@), a, b), //# C03 add.ok_iff_table
             r is Err ==> r->Err_0.len() >= 1 && r->Err_0[0].span() == span, //# C03 add.error_carries_span
 //@   endspec
@@ -1072,14 +1072,14 @@ impl TypeChecker {
 //@   endghost
 //@   loop 1 binder it
                     invariant
-                        self.inv(), same_graph(ts0, self.types@), self.variables == old(self).variables,
-                        forall|o: Seq<TypeNode>| #[trigger] same_graph(o, ts0) ==> same_graph(o, self.types@),
-                        tview(self.types@) == m, ts0 == old(self).types@, xs.len() == ys.len(),
-                        it.seq().len() == xs.len(),
-                        forall|i: int| 0 <= i < xs.len() ==> *(#[trigger] it.seq()[i]).0 == xs[i] && *it.seq()[i].1 == ys[i],
-                        m[a_id.0 as int] is Tuple, m[b_id.0 as int] is Tuple,
-                        xs == m[a_id.0 as int]->Tuple_0@, ys == m[b_id.0 as int]->Tuple_0@,
-                        forall|k: int| 0 <= k < xs.len() ==> (#[trigger] xs[k]).0 < ts0.len() && (#[trigger] ys[k]).0 < ts0.len(),
+                        self.inv(), same_graph(ts0, self.types@), self.variables == old(self).variables, //# C07 add.loop1.aux1
+                        forall|o: Seq<TypeNode>| #[trigger] same_graph(o, ts0) ==> same_graph(o, self.types@), //# C07 add.loop1.aux2
+                        tview(self.types@) == m, ts0 == old(self).types@, xs.len() == ys.len(), //# C07 add.loop1.aux3
+                        it.seq().len() == xs.len(), //# C07 add.loop1.aux4
+                        forall|i: int| 0 <= i < xs.len() ==> *(#[trigger] it.seq()[i]).0 == xs[i] && *it.seq()[i].1 == ys[i], //# C07 add.loop1.aux5
+                        m[a_id.0 as int] is Tuple, m[b_id.0 as int] is Tuple, //# C07 add.loop1.aux6
+                        xs == m[a_id.0 as int]->Tuple_0@, ys == m[b_id.0 as int]->Tuple_0@, //# C07 add.loop1.aux7
+                        forall|k: int| 0 <= k < xs.len() ==> (#[trigger] xs[k]).0 < ts0.len() && (#[trigger] ys[k]).0 < ts0.len(), //# C07 add.loop1.aux8
                         forall|i: int| 0 <= i < it.index@ ==> #[trigger] add_ok_all(m, xs[i], ys[i]), //# C03 add.loop.members_checked
 //@   endloop
 //@   ghost loop-body 1
@@ -1107,9 +1107,9 @@ impl TypeChecker {
         ensures
             final(self).inv(), //# C02 sub.keeps_invariant
             same_graph(old(self).types@, final(self).types@), //# C03 sub.no_observable_change
-            forall|o: Seq<TypeNode>| #[trigger] same_graph(o, old(self).types@) ==> same_graph(o, final(self).types@),
+            forall|o: Seq<TypeNode>| #[trigger] same_graph(o, old(self).types@) ==> same_graph(o, final(self).types@), //# C07 sub.spec.aux1
             tview(final(self).types@) == tview(old(self).types@), //# C03 sub.view_unchanged
-            final(self).variables == old(self).variables,
+            final(self).variables == old(self).variables, //# C07 sub.spec.aux2
             r is Ok <==> arith_ok_all(tview(old(self).types@), a, b), //# C03 sub.ok_iff_table
             r is Err ==> r->Err_0.len() >= 1 && r->Err_0[0].span() == span, //# C03 sub.error_carries_span
 //@   endspec
@@ -1126,14 +1126,14 @@ impl TypeChecker {
 //@   endghost
 //@   loop 1 binder it
                     invariant
-                        self.inv(), same_graph(ts0, self.types@), self.variables == old(self).variables,
-                        forall|o: Seq<TypeNode>| #[trigger] same_graph(o, ts0) ==> same_graph(o, self.types@),
-                        tview(self.types@) == m, ts0 == old(self).types@, xs.len() == ys.len(),
-                        it.seq().len() == xs.len(),
-                        forall|i: int| 0 <= i < xs.len() ==> *(#[trigger] it.seq()[i]).0 == xs[i] && *it.seq()[i].1 == ys[i],
-                        m[a_id.0 as int] is Tuple, m[b_id.0 as int] is Tuple,
-                        xs == m[a_id.0 as int]->Tuple_0@, ys == m[b_id.0 as int]->Tuple_0@,
-                        forall|k: int| 0 <= k < xs.len() ==> (#[trigger] xs[k]).0 < ts0.len() && (#[trigger] ys[k]).0 < ts0.len(),
+                        self.inv(), same_graph(ts0, self.types@), self.variables == old(self).variables, //# C07 sub.loop1.aux1
+                        forall|o: Seq<TypeNode>| #[trigger] same_graph(o, ts0) ==> same_graph(o, self.types@), //# C07 sub.loop1.aux2
+                        tview(self.types@) == m, ts0 == old(self).types@, xs.len() == ys.len(), //# C07 sub.loop1.aux3
+                        it.seq().len() == xs.len(), //# C07 sub.loop1.aux4
+                        forall|i: int| 0 <= i < xs.len() ==> *(#[trigger] it.seq()[i]).0 == xs[i] && *it.seq()[i].1 == ys[i], //# C07 sub.loop1.aux5
+                        m[a_id.0 as int] is Tuple, m[b_id.0 as int] is Tuple, //# C07 sub.loop1.aux6
+                        xs == m[a_id.0 as int]->Tuple_0@, ys == m[b_id.0 as int]->Tuple_0@, //# C07 sub.loop1.aux7
+                        forall|k: int| 0 <= k < xs.len() ==> (#[trigger] xs[k]).0 < ts0.len() && (#[trigger] ys[k]).0 < ts0.len(), //# C07 sub.loop1.aux8
                         forall|i: int| 0 <= i < it.index@ ==> #[trigger] arith_ok_all(m, xs[i], ys[i]), //# C03 sub.loop1.members_checked
 //@   endloop
 //@   ghost loop-body 1
@@ -1160,9 +1160,9 @@ impl TypeChecker {
         ensures
             final(self).inv(), //# C02 mul.keeps_invariant
             same_graph(old(self).types@, final(self).types@), //# C03 mul.no_observable_change
-            forall|o: Seq<TypeNode>| #[trigger] same_graph(o, old(self).types@) ==> same_graph(o, final(self).types@),
+            forall|o: Seq<TypeNode>| #[trigger] same_graph(o, old(self).types@) ==> same_graph(o, final(self).types@), //# C07 mul.spec.aux1
             tview(final(self).types@) == tview(old(self).types@), //# C03 mul.view_unchanged
-            final(self).variables == old(self).variables,
+            final(self).variables == old(self).variables, //# C07 mul.spec.aux2
             r is Ok <==> arith_ok_all(tview(old(self).types@), a, b), //# C03 mul.ok_iff_table
             r is Err ==> r->Err_0.len() >= 1 && r->Err_0[0].span() == span, //# C03 mul.error_carries_span
 //@   endspec
@@ -1179,14 +1179,14 @@ impl TypeChecker {
 //@   endghost
 //@   loop 1 binder it
                     invariant
-                        self.inv(), same_graph(ts0, self.types@), self.variables == old(self).variables,
-                        forall|o: Seq<TypeNode>| #[trigger] same_graph(o, ts0) ==> same_graph(o, self.types@),
-                        tview(self.types@) == m, ts0 == old(self).types@, xs.len() == ys.len(),
-                        it.seq().len() == xs.len(),
-                        forall|i: int| 0 <= i < xs.len() ==> *(#[trigger] it.seq()[i]).0 == xs[i] && *it.seq()[i].1 == ys[i],
-                        m[a_id.0 as int] is Tuple, m[b_id.0 as int] is Tuple,
-                        xs == m[a_id.0 as int]->Tuple_0@, ys == m[b_id.0 as int]->Tuple_0@,
-                        forall|k: int| 0 <= k < xs.len() ==> (#[trigger] xs[k]).0 < ts0.len() && (#[trigger] ys[k]).0 < ts0.len(),
+                        self.inv(), same_graph(ts0, self.types@), self.variables == old(self).variables, //# C07 mul.loop1.aux1
+                        forall|o: Seq<TypeNode>| #[trigger] same_graph(o, ts0) ==> same_graph(o, self.types@), //# C07 mul.loop1.aux2
+                        tview(self.types@) == m, ts0 == old(self).types@, xs.len() == ys.len(), //# C07 mul.loop1.aux3
+                        it.seq().len() == xs.len(), //# C07 mul.loop1.aux4
+                        forall|i: int| 0 <= i < xs.len() ==> *(#[trigger] it.seq()[i]).0 == xs[i] && *it.seq()[i].1 == ys[i], //# C07 mul.loop1.aux5
+                        m[a_id.0 as int] is Tuple, m[b_id.0 as int] is Tuple, //# C07 mul.loop1.aux6
+                        xs == m[a_id.0 as int]->Tuple_0@, ys == m[b_id.0 as int]->Tuple_0@, //# C07 mul.loop1.aux7
+                        forall|k: int| 0 <= k < xs.len() ==> (#[trigger] xs[k]).0 < ts0.len() && (#[trigger] ys[k]).0 < ts0.len(), //# C07 mul.loop1.aux8
                         forall|i: int| 0 <= i < it.index@ ==> #[trigger] arith_ok_all(m, xs[i], ys[i]), //# C03 mul.loop1.members_checked
 //@   endloop
 //@   ghost loop-body 1
@@ -1213,9 +1213,9 @@ impl TypeChecker {
         ensures
             final(self).inv(), //# C02 cmp.keeps_invariant
             same_graph(old(self).types@, final(self).types@), //# C03 cmp.no_observable_change
-            forall|o: Seq<TypeNode>| #[trigger] same_graph(o, old(self).types@) ==> same_graph(o, final(self).types@),
+            forall|o: Seq<TypeNode>| #[trigger] same_graph(o, old(self).types@) ==> same_graph(o, final(self).types@), //# C07 cmp.spec.aux1
             tview(final(self).types@) == tview(old(self).types@), //# C03 cmp.view_unchanged
-            final(self).variables == old(self).variables,
+            final(self).variables == old(self).variables, //# C07 cmp.spec.aux2
             r is Ok <==> cmp_ok_all(tview(old(self).types@), a, b), //# C03 cmp.ok_iff_table
             r is Err ==> r->Err_0.len() >= 1 && r->Err_0[0].span() == span, //# C03 cmp.error_carries_span
 //@   endspec
@@ -1232,14 +1232,14 @@ impl TypeChecker {
 //@   endghost
 //@   loop 1 binder it
                     invariant
-                        self.inv(), same_graph(ts0, self.types@), self.variables == old(self).variables,
-                        forall|o: Seq<TypeNode>| #[trigger] same_graph(o, ts0) ==> same_graph(o, self.types@),
-                        tview(self.types@) == m, ts0 == old(self).types@, xs.len() == ys.len(),
-                        it.seq().len() == xs.len(),
-                        forall|i: int| 0 <= i < xs.len() ==> *(#[trigger] it.seq()[i]).0 == xs[i] && *it.seq()[i].1 == ys[i],
-                        m[a_id.0 as int] is Tuple, m[b_id.0 as int] is Tuple,
-                        xs == m[a_id.0 as int]->Tuple_0@, ys == m[b_id.0 as int]->Tuple_0@,
-                        forall|k: int| 0 <= k < xs.len() ==> (#[trigger] xs[k]).0 < ts0.len() && (#[trigger] ys[k]).0 < ts0.len(),
+                        self.inv(), same_graph(ts0, self.types@), self.variables == old(self).variables, //# C07 cmp.loop1.aux1
+                        forall|o: Seq<TypeNode>| #[trigger] same_graph(o, ts0) ==> same_graph(o, self.types@), //# C07 cmp.loop1.aux2
+                        tview(self.types@) == m, ts0 == old(self).types@, xs.len() == ys.len(), //# C07 cmp.loop1.aux3
+                        it.seq().len() == xs.len(), //# C07 cmp.loop1.aux4
+                        forall|i: int| 0 <= i < xs.len() ==> *(#[trigger] it.seq()[i]).0 == xs[i] && *it.seq()[i].1 == ys[i], //# C07 cmp.loop1.aux5
+                        m[a_id.0 as int] is Tuple, m[b_id.0 as int] is Tuple, //# C07 cmp.loop1.aux6
+                        xs == m[a_id.0 as int]->Tuple_0@, ys == m[b_id.0 as int]->Tuple_0@, //# C07 cmp.loop1.aux7
+                        forall|k: int| 0 <= k < xs.len() ==> (#[trigger] xs[k]).0 < ts0.len() && (#[trigger] ys[k]).0 < ts0.len(), //# C07 cmp.loop1.aux8
                         forall|i: int| 0 <= i < it.index@ ==> #[trigger] cmp_ok_all(m, xs[i], ys[i]), //# C03 cmp.loop1.members_checked
 //@   endloop
 //@   ghost loop-body 1
@@ -1266,9 +1266,9 @@ impl TypeChecker {
         ensures
             final(self).inv(), //# C02 div.keeps_invariant
             same_graph(old(self).types@, final(self).types@), //# C03 div.no_observable_change
-            forall|o: Seq<TypeNode>| #[trigger] same_graph(o, old(self).types@) ==> same_graph(o, final(self).types@),
+            forall|o: Seq<TypeNode>| #[trigger] same_graph(o, old(self).types@) ==> same_graph(o, final(self).types@), //# C07 div.spec.aux1
             tview(final(self).types@) == tview(old(self).types@), //# C03 div.view_unchanged
-            final(self).variables == old(self).variables,
+            final(self).variables == old(self).variables, //# C07 div.spec.aux2
             r is Ok <==> div_ok_all(tview(old(self).types@), a, b), //# C03 div.ok_iff_table
             r is Err ==> r->Err_0.len() >= 1 && r->Err_0[0].span() == span, //# C03 div.error_carries_span
 //@   endspec
@@ -1285,14 +1285,14 @@ impl TypeChecker {
 //@   endghost
 //@   loop 1 binder it
                     invariant
-                        self.inv(), same_graph(ts0, self.types@), self.variables == old(self).variables,
-                        forall|o: Seq<TypeNode>| #[trigger] same_graph(o, ts0) ==> same_graph(o, self.types@),
-                        tview(self.types@) == m, ts0 == old(self).types@,
-                        it.seq().len() == xs.len(),
-                        forall|i: int| 0 <= i < xs.len() ==> *(#[trigger] it.seq()[i]) == xs[i],
-                        m[a_id.0 as int] is Tuple, is_num(m[b_id.0 as int]), b == b_id,
-                        xs == m[a_id.0 as int]->Tuple_0@,
-                        forall|k: int| 0 <= k < xs.len() ==> (#[trigger] xs[k]).0 < ts0.len(),
+                        self.inv(), same_graph(ts0, self.types@), self.variables == old(self).variables, //# C07 div.loop1.aux1
+                        forall|o: Seq<TypeNode>| #[trigger] same_graph(o, ts0) ==> same_graph(o, self.types@), //# C07 div.loop1.aux2
+                        tview(self.types@) == m, ts0 == old(self).types@, //# C07 div.loop1.aux3
+                        it.seq().len() == xs.len(), //# C07 div.loop1.aux4
+                        forall|i: int| 0 <= i < xs.len() ==> *(#[trigger] it.seq()[i]) == xs[i], //# C07 div.loop1.aux5
+                        m[a_id.0 as int] is Tuple, is_num(m[b_id.0 as int]), b == b_id, //# C07 div.loop1.aux6
+                        xs == m[a_id.0 as int]->Tuple_0@, //# C07 div.loop1.aux7
+                        forall|k: int| 0 <= k < xs.len() ==> (#[trigger] xs[k]).0 < ts0.len(), //# C07 div.loop1.aux8
                         forall|i: int| 0 <= i < it.index@ ==> #[trigger] div_ok_all(m, xs[i], b_id), //# C03 div.loop1.members_checked
 //@   endloop
 //@   ghost loop-body 1
@@ -1306,14 +1306,14 @@ impl TypeChecker {
 //@   endghost
 //@   loop 2 binder it
                     invariant
-                        self.inv(), same_graph(ts0, self.types@), self.variables == old(self).variables,
-                        forall|o: Seq<TypeNode>| #[trigger] same_graph(o, ts0) ==> same_graph(o, self.types@),
-                        tview(self.types@) == m, ts0 == old(self).types@, xs.len() == ys.len(),
-                        it.seq().len() == xs.len(),
-                        forall|i: int| 0 <= i < xs.len() ==> *(#[trigger] it.seq()[i]).0 == xs[i] && *it.seq()[i].1 == ys[i],
-                        m[a_id.0 as int] is Tuple, m[b_id.0 as int] is Tuple,
-                        xs == m[a_id.0 as int]->Tuple_0@, ys == m[b_id.0 as int]->Tuple_0@,
-                        forall|k: int| 0 <= k < xs.len() ==> (#[trigger] xs[k]).0 < ts0.len() && (#[trigger] ys[k]).0 < ts0.len(),
+                        self.inv(), same_graph(ts0, self.types@), self.variables == old(self).variables, //# C07 div.loop2.aux1
+                        forall|o: Seq<TypeNode>| #[trigger] same_graph(o, ts0) ==> same_graph(o, self.types@), //# C07 div.loop2.aux2
+                        tview(self.types@) == m, ts0 == old(self).types@, xs.len() == ys.len(), //# C07 div.loop2.aux3
+                        it.seq().len() == xs.len(), //# C07 div.loop2.aux4
+                        forall|i: int| 0 <= i < xs.len() ==> *(#[trigger] it.seq()[i]).0 == xs[i] && *it.seq()[i].1 == ys[i], //# C07 div.loop2.aux5
+                        m[a_id.0 as int] is Tuple, m[b_id.0 as int] is Tuple, //# C07 div.loop2.aux6
+                        xs == m[a_id.0 as int]->Tuple_0@, ys == m[b_id.0 as int]->Tuple_0@, //# C07 div.loop2.aux7
+                        forall|k: int| 0 <= k < xs.len() ==> (#[trigger] xs[k]).0 < ts0.len() && (#[trigger] ys[k]).0 < ts0.len(), //# C07 div.loop2.aux8
                         forall|i: int| 0 <= i < it.index@ ==> #[trigger] div_ok_all(m, xs[i], ys[i]), //# C03 div.loop2.members_checked
 //@   endloop
 //@   ghost loop-body 2
@@ -1340,7 +1340,7 @@ impl TypeChecker {
                 old(self).types@[rep0(old(self).types@, a.0 as int)].size + old(self).types@[rep0(old(self).types@, b.0 as int)].size <= usize::MAX, //# C07 union.pre.size_no_overflow
         ensures
             final(self).inv(), //# C02 union.keeps_invariant
-            final(self).types.len() == old(self).types.len(),
+            final(self).types.len() == old(self).types.len(), //# C07 union.spec.aux1
             forall|i: int| 0 <= i < old(self).types.len() ==> (#[trigger] final(self).types@[i]).ty == old(self).types@[i].ty, //# C02 union.types_untouched
             exists|w: int| #[trigger] merged_into(old(self).types@, final(self).types@, rep0(old(self).types@, a.0 as int), rep0(old(self).types@, b.0 as int), w), //# C02,C03 union.partition_merges_exactly_two_classes
             forall|c: Constraint| #[trigger] cons_of(final(self).types@, a.0 as int).contains(c) <==>
@@ -1348,7 +1348,7 @@ impl TypeChecker {
             forall|i: int| 0 <= i < old(self).types.len() && rep0(old(self).types@, i) != rep0(old(self).types@, a.0 as int)
                 && rep0(old(self).types@, i) != rep0(old(self).types@, b.0 as int)
                 ==> #[trigger] cons_of(final(self).types@, i) == cons_of(old(self).types@, i), //# C02,C03 union.other_classes_keep_constraints
-            final(self).variables == old(self).variables,
+            final(self).variables == old(self).variables, //# C07 union.spec.aux2
 //@   endspec
 //@   ghost entry
         let ghost ts0 = self.types@;
@@ -1370,14 +1370,14 @@ impl TypeChecker {
 //@   endghost
 //@   loop 1 binder it
             invariant
-                vstd::std_specs::btree::key_obeys_cmp_spec::<Constraint>(),
-                self.types@.len() == ts3.len(), (a as int) < ts3.len(), (b as int) < ts3.len(), a != b,
-                hoisted_tmp@ == ts3[b as int].constraints@,
-                forall|i: int| 0 <= i < ts3.len() ==> (#[trigger] self.types@[i]).parent == ts3[i].parent && self.types@[i].ty == ts3[i].ty && self.types@[i].size == ts3[i].size,
-                forall|i: int| 0 <= i < ts3.len() && i != a as int ==> (#[trigger] self.types@[i]).constraints == ts3[i].constraints,
+                vstd::std_specs::btree::key_obeys_cmp_spec::<Constraint>(), //# C02,C07 union.loop1.aux1
+                self.types@.len() == ts3.len(), (a as int) < ts3.len(), (b as int) < ts3.len(), a != b, //# C02,C07 union.loop1.aux2
+                hoisted_tmp@ == ts3[b as int].constraints@, //# C07 union.loop1.aux3
+                forall|i: int| 0 <= i < ts3.len() ==> (#[trigger] self.types@[i]).parent == ts3[i].parent && self.types@[i].ty == ts3[i].ty && self.types@[i].size == ts3[i].size, //# C02,C07 union.loop1.aux4
+                forall|i: int| 0 <= i < ts3.len() && i != a as int ==> (#[trigger] self.types@[i]).constraints == ts3[i].constraints, //# C02,C07 union.loop1.aux5
                 forall|c: Constraint| #[trigger] self.types@[a as int].constraints@.dom().contains(c) <==> ts3[a as int].constraints@.dom().contains(c)
                     || exists|j: int| 0 <= j < it.index@ && *(#[trigger] it.seq()[j]).0 == c, //# C02,C03 union.loop.constraints_accumulate
-                self.variables == old(self).variables,
+                self.variables == old(self).variables, //# C07 union.loop1.aux6
 //@   endloop
 //@   ghost after-loop 1
         proof {
@@ -1494,9 +1494,9 @@ impl TypeChecker {
 //@   why vstd has no specification for Index on BTreeMap; map[key] is get(key) that panics when the key is absent - the panic is kept as the obligation unreachable!()
 //@   endrewrite
 //@   spec
-        requires old(self).inv2(),
+        requires old(self).inv2(), //# C07 expression.spec.aux1
             e_ok(*expression, old(self).variables@.len() as int), //# C07 expression.pre.tree_is_well_formed
-        ensures final(self).inv2(), final(self).grows(old(self)),
+        ensures final(self).inv2(), final(self).grows(old(self)), //# C07 expression.spec.aux2
             r is Ok ==> final(self).valid(r->Ok_0.1) && (r->Ok_0.0 is Some ==> final(self).valid(r->Ok_0.0->Some_0)), //# C07 expression.result_ids_in_range
             r is Ok ==> e_brk(*expression, ctx.inside_loop), //# C05 expression.break_only_inside_a_loop_of_the_same_function
             r is Ok ==> e_pur(old(self).variables@, *expression, ctx.inside_pure), //# C04 expression.pure_functions_stay_pure_at_any_depth
@@ -1518,21 +1518,21 @@ impl TypeChecker {
 //@   endghost
 //@   loop 1 binder it
                             invariant
-                                self.inv2(), self.grows(old(self)), n == self.variables@.len(), vs == self.variables@, il == ctx.inside_loop, ip == ctx.inside_pure, self.types@.len() >= n1,
-                                ret is Some ==> self.valid(ret->Some_0), self.valid(ret_ty),
-                                it.seq().len() == args@.len(), args@.len() == params@.len(),
-                                forall|k: int| 0 <= k < args@.len() ==> *(#[trigger] it.seq()[k]).0 == args@[k] && *it.seq()[k].1 == params@[k],
-                                forall|k: int| 0 <= k < params@.len() ==> ((#[trigger] params@[k]).0 as int) < n1,
-                                forall|k: int| 0 <= k < args@.len() ==> e_ok(#[trigger] args@[k], n),
+                                self.inv2(), self.grows(old(self)), n == self.variables@.len(), vs == self.variables@, il == ctx.inside_loop, ip == ctx.inside_pure, self.types@.len() >= n1, //# C04,C05 expression.loop1.aux1
+                                ret is Some ==> self.valid(ret->Some_0), self.valid(ret_ty), //# C07 expression.loop1.aux2
+                                it.seq().len() == args@.len(), args@.len() == params@.len(), //# C07 expression.loop1.aux3
+                                forall|k: int| 0 <= k < args@.len() ==> *(#[trigger] it.seq()[k]).0 == args@[k] && *it.seq()[k].1 == params@[k], //# C07 expression.loop1.aux4
+                                forall|k: int| 0 <= k < params@.len() ==> ((#[trigger] params@[k]).0 as int) < n1, //# C07 expression.loop1.aux5
+                                forall|k: int| 0 <= k < args@.len() ==> e_ok(#[trigger] args@[k], n), //# C07 expression.loop1.aux6
                                 forall|k: int| 0 <= k < it.index@ ==> e_both(vs, #[trigger] args@[k], il, ip), //# C04,C05 expression.loop1.arguments_checked
 //@   endloop
 //@   loop 2 binder it
                     invariant
-                        self.inv2(), self.grows(old(self)), n == self.variables@.len(), vs == self.variables@, il == ctx.inside_loop, ip == ctx.inside_pure,
-                        it.seq().len() == branches@.len(),
-                        forall|k: int| 0 <= k < branches@.len() ==> *(#[trigger] it.seq()[k]) == branches@[k],
-                        forall|k: int| 0 <= k < branches@.len() ==> ib_ok(#[trigger] branches@[k], n),
-                        tys_valid(tys@, self.types@.len() as int),
+                        self.inv2(), self.grows(old(self)), n == self.variables@.len(), vs == self.variables@, il == ctx.inside_loop, ip == ctx.inside_pure, //# C04,C05 expression.loop2.aux1
+                        it.seq().len() == branches@.len(), //# C07 expression.loop2.aux2
+                        forall|k: int| 0 <= k < branches@.len() ==> *(#[trigger] it.seq()[k]) == branches@[k], //# C07 expression.loop2.aux3
+                        forall|k: int| 0 <= k < branches@.len() ==> ib_ok(#[trigger] branches@[k], n), //# C07 expression.loop2.aux4
+                        tys_valid(tys@, self.types@.len() as int), //# C07 expression.loop2.aux5
                         forall|k: int| 0 <= k < it.index@ ==> ib_str(vs, #[trigger] branches@[k], il, ip), //# C04,C05 expression.loop2.branches_checked
 //@   endloop
 //@   ghost before-loop 3
@@ -1540,19 +1540,19 @@ impl TypeChecker {
 //@   endghost
 //@   loop 3 binder it
                         invariant
-                            self.inv2(), self.grows(old(self)), n == self.variables@.len(), vs == self.variables@, il == ctx.inside_loop, ip == ctx.inside_pure, self.types@.len() >= n3,
-                            tys_valid(tys@, n3 as int), it.seq().len() == tys@.len(),
-                            forall|k: int| 0 <= k < tys@.len() ==> *(#[trigger] it.seq()[k]) == tys@[k],
-                            ret is Some ==> self.valid(ret->Some_0), value is Some ==> self.valid(value->Some_0),
+                            self.inv2(), self.grows(old(self)), n == self.variables@.len(), vs == self.variables@, il == ctx.inside_loop, ip == ctx.inside_pure, self.types@.len() >= n3, //# C04,C05 expression.loop3.aux1
+                            tys_valid(tys@, n3 as int), it.seq().len() == tys@.len(), //# C07 expression.loop3.aux2
+                            forall|k: int| 0 <= k < tys@.len() ==> *(#[trigger] it.seq()[k]) == tys@[k], //# C07 expression.loop3.aux3
+                            ret is Some ==> self.valid(ret->Some_0), value is Some ==> self.valid(value->Some_0), //# C07 expression.loop3.aux4
 //@   endloop
 //@   loop 4 binder it
                     invariant
-                        self.inv2(), self.grows(old(self)), n == self.variables@.len(), vs == self.variables@, il == ctx.inside_loop, ip == ctx.inside_pure, self.valid(to_match),
-                        vstd::std_specs::btree::key_obeys_cmp_spec::<String>(),
-                        it.seq().len() == branches@.len(),
-                        forall|k: int| 0 <= k < branches@.len() ==> *(#[trigger] it.seq()[k]) == branches@[k],
-                        forall|k: int| 0 <= k < branches@.len() ==> cb_ok(#[trigger] branches@[k], n),
-                        ret is Some ==> self.valid(ret->Some_0), value is Some ==> self.valid(value->Some_0),
+                        self.inv2(), self.grows(old(self)), n == self.variables@.len(), vs == self.variables@, il == ctx.inside_loop, ip == ctx.inside_pure, self.valid(to_match), //# C04,C05 expression.loop4.aux1
+                        vstd::std_specs::btree::key_obeys_cmp_spec::<String>(), //# C07 expression.loop4.aux2
+                        it.seq().len() == branches@.len(), //# C07 expression.loop4.aux3
+                        forall|k: int| 0 <= k < branches@.len() ==> *(#[trigger] it.seq()[k]) == branches@[k], //# C07 expression.loop4.aux4
+                        forall|k: int| 0 <= k < branches@.len() ==> cb_ok(#[trigger] branches@[k], n), //# C07 expression.loop4.aux5
+                        ret is Some ==> self.valid(ret->Some_0), value is Some ==> self.valid(value->Some_0), //# C07 expression.loop4.aux6
                         forall|k: int| 0 <= k < it.index@ ==> cb_str(vs, #[trigger] branches@[k], il, ip), //# C04,C05 expression.loop4.arms_checked
 //@   endloop
 //@   ghost before-loop 5
@@ -1560,49 +1560,49 @@ impl TypeChecker {
 //@   endghost
 //@   loop 5 binder it
                     invariant
-                        self.inv2(), self.grows(old(self)), n == self.variables@.len(), vs == self.variables@, il == ctx.inside_loop, ip == ctx.inside_pure, self.valid(blob_ty), self.types@.len() >= n5,
-                        vstd::std_specs::btree::key_obeys_cmp_spec::<String>(),
-                        it.seq().len() == fields@.len(),
-                        forall|k: int| 0 <= k < fields@.len() ==> *(#[trigger] it.seq()[k]) == fields@[k],
-                        fields_in_range(given_fields, self.types@.len() as int),
+                        self.inv2(), self.grows(old(self)), n == self.variables@.len(), vs == self.variables@, il == ctx.inside_loop, ip == ctx.inside_pure, self.valid(blob_ty), self.types@.len() >= n5, //# C04,C05 expression.loop5.aux1
+                        vstd::std_specs::btree::key_obeys_cmp_spec::<String>(), //# C07 expression.loop5.aux2
+                        it.seq().len() == fields@.len(), //# C07 expression.loop5.aux3
+                        forall|k: int| 0 <= k < fields@.len() ==> *(#[trigger] it.seq()[k]) == fields@[k], //# C07 expression.loop5.aux4
+                        fields_in_range(given_fields, self.types@.len() as int), //# C07 expression.loop5.aux5
                         forall|k: int| 0 <= k < it.index@ ==> given_fields@.dom().contains((#[trigger] fields@[k]).0), //# C07 expression.loop5.every_given_field_gets_a_type
 //@   endloop
 //@   loop 6
-                    invariant vstd::std_specs::btree::key_obeys_cmp_spec::<String>(),
+                    invariant vstd::std_specs::btree::key_obeys_cmp_spec::<String>(), //# C07 expression.loop6.aux1
 //@   endloop
 //@   loop 7
-                    invariant vstd::std_specs::btree::key_obeys_cmp_spec::<String>(),
+                    invariant vstd::std_specs::btree::key_obeys_cmp_spec::<String>(), //# C07 expression.loop7.aux1
 //@   endloop
 //@   ghost before-loop 8
                 let ghost n8 = self.types@.len();
 //@   endghost
 //@   loop 8 binder it
                     invariant
-                        self.inv2(), self.grows(old(self)), n == self.variables@.len(), vs == self.variables@, il == ctx.inside_loop, ip == ctx.inside_pure, self.types@.len() >= n8,
-                        vstd::std_specs::btree::key_obeys_cmp_spec::<String>(),
-                        self.valid(given_blob), self.valid(blob_ty), ret is Some ==> self.valid(ret->Some_0),
-                        it.seq().len() == fields@.len(),
-                        forall|k: int| 0 <= k < fields@.len() ==> *(#[trigger] it.seq()[k]) == fields@[k],
-                        forall|k: int| 0 <= k < fields@.len() ==> e_ok((#[trigger] fields@[k]).1, n),
-                        fields_in_range(fields_and_types, n8 as int),
-                        forall|k: int| 0 <= k < fields@.len() ==> fields_and_types@.dom().contains((#[trigger] fields@[k]).0),
+                        self.inv2(), self.grows(old(self)), n == self.variables@.len(), vs == self.variables@, il == ctx.inside_loop, ip == ctx.inside_pure, self.types@.len() >= n8, //# C04,C05 expression.loop8.aux1
+                        vstd::std_specs::btree::key_obeys_cmp_spec::<String>(), //# C07 expression.loop8.aux2
+                        self.valid(given_blob), self.valid(blob_ty), ret is Some ==> self.valid(ret->Some_0), //# C07 expression.loop8.aux3
+                        it.seq().len() == fields@.len(), //# C07 expression.loop8.aux4
+                        forall|k: int| 0 <= k < fields@.len() ==> *(#[trigger] it.seq()[k]) == fields@[k], //# C07 expression.loop8.aux5
+                        forall|k: int| 0 <= k < fields@.len() ==> e_ok((#[trigger] fields@[k]).1, n), //# C07 expression.loop8.aux6
+                        fields_in_range(fields_and_types, n8 as int), //# C07 expression.loop8.aux7
+                        forall|k: int| 0 <= k < fields@.len() ==> fields_and_types@.dom().contains((#[trigger] fields@[k]).0), //# C07 expression.loop8.aux8
                         forall|k: int| 0 <= k < it.index@ ==> e_both(vs, (#[trigger] fields@[k]).1, il, ip), //# C04,C05 expression.loop8.fields_checked
 //@   endloop
 //@   loop 9 binder it
                     invariant
-                        self.inv2(), self.grows(old(self)), n == self.variables@.len(), vs == self.variables@, il == ctx.inside_loop, ip == ctx.inside_pure, ret is Some ==> self.valid(ret->Some_0),
-                        it.seq().len() == values@.len(),
-                        forall|k: int| 0 <= k < values@.len() ==> *(#[trigger] it.seq()[k]) == values@[k],
-                        forall|k: int| 0 <= k < values@.len() ==> e_ok(#[trigger] values@[k], n),
-                        forall|k: int| 0 <= k < tys@.len() ==> self.valid(#[trigger] tys@[k]),
+                        self.inv2(), self.grows(old(self)), n == self.variables@.len(), vs == self.variables@, il == ctx.inside_loop, ip == ctx.inside_pure, ret is Some ==> self.valid(ret->Some_0), //# C04,C05 expression.loop9.aux1
+                        it.seq().len() == values@.len(), //# C07 expression.loop9.aux2
+                        forall|k: int| 0 <= k < values@.len() ==> *(#[trigger] it.seq()[k]) == values@[k], //# C07 expression.loop9.aux3
+                        forall|k: int| 0 <= k < values@.len() ==> e_ok(#[trigger] values@[k], n), //# C07 expression.loop9.aux4
+                        forall|k: int| 0 <= k < tys@.len() ==> self.valid(#[trigger] tys@[k]), //# C07 expression.loop9.aux5
                         forall|k: int| 0 <= k < it.index@ ==> e_both(vs, #[trigger] values@[k], il, ip), //# C04,C05 expression.loop9.members_checked
 //@   endloop
 //@   loop 10 binder it
                     invariant
-                        self.inv2(), self.grows(old(self)), n == self.variables@.len(), vs == self.variables@, il == ctx.inside_loop, ip == ctx.inside_pure, ret is Some ==> self.valid(ret->Some_0), self.valid(inner_ty),
-                        it.seq().len() == values@.len(),
-                        forall|k: int| 0 <= k < values@.len() ==> *(#[trigger] it.seq()[k]) == values@[k],
-                        forall|k: int| 0 <= k < values@.len() ==> e_ok(#[trigger] values@[k], n),
+                        self.inv2(), self.grows(old(self)), n == self.variables@.len(), vs == self.variables@, il == ctx.inside_loop, ip == ctx.inside_pure, ret is Some ==> self.valid(ret->Some_0), self.valid(inner_ty), //# C04,C05 expression.loop10.aux1
+                        it.seq().len() == values@.len(), //# C07 expression.loop10.aux2
+                        forall|k: int| 0 <= k < values@.len() ==> *(#[trigger] it.seq()[k]) == values@[k], //# C07 expression.loop10.aux3
+                        forall|k: int| 0 <= k < values@.len() ==> e_ok(#[trigger] values@[k], n), //# C07 expression.loop10.aux4
                         forall|k: int| 0 <= k < it.index@ ==> e_both(vs, #[trigger] values@[k], il, ip), //# C04,C05 expression.loop10.elements_checked
 //@   endloop
 //@   ghost before
@@ -1662,13 +1662,13 @@ impl TypeChecker {
 //@   why closure capturing &mut self; Result::map + or_else is this match
 //@   endrewrite
 //@   spec
-        requires old(self).inv2(),
+        requires old(self).inv2(), //# C07 solve.spec.aux1
             start_var is Some ==> (start_var->Some_0.id as int) < old(self).variables@.len(), //# C07 solve.pre.start_id_in_range
         ensures
             start_var is None ==> r is Err, //# C05,C07 solve.program_without_start_is_rejected
 //@   endspec
 //@   loop 1
-            invariant self.inv2(), self.grows(old(self)),
+            invariant self.inv2(), self.grows(old(self)), //# C07 solve.loop1.aux1
 //@   endloop
 //@   ghost before
 //@| let ty = self.variables[var.id].ty;
@@ -1717,10 +1717,10 @@ impl TypeChecker {
 //@   ret r
 //@   spec
         requires
-            wf_forest(old(self).types@),
+            wf_forest(old(self).types@), //# C02,C07 find_node_mut.spec.aux1
             (a.0 as int) < old(self).types.len(), //# C07 find_node_mut.pre.id_in_range
         ensures
-            final(self).types@.len() == old(self).types@.len(),
+            final(self).types@.len() == old(self).types@.len(), //# C02,C07 find_node_mut.spec.aux2
             r.parent is None && r.ty == ty_of(old(self).types@, a) && r.constraints == old(self).types@[rep0(old(self).types@, a.0 as int)].constraints
                 && r.size == old(self).types@[rep0(old(self).types@, a.0 as int)].size, //# C02 find_node_mut.hands_out_the_root_node
             final(self).types@[rep0(old(self).types@, a.0 as int)] == *final(r), //# C02 find_node_mut.writes_go_to_the_root_node
@@ -1730,7 +1730,7 @@ impl TypeChecker {
             final(r).parent is None ==> wf_forest(final(self).types@)
                 && forall|i: int| 0 <= i < old(self).types@.len() ==> #[trigger] rep0(final(self).types@, i) == rep0(old(self).types@, i), //# C02 find_node_mut.partition_unchanged_if_parent_untouched
             final(r).parent is None && final(r).size == r.size && sizes_inv(old(self).types@) ==> sizes_inv(final(self).types@), //# C02 find_node_mut.sizes_kept_if_size_untouched
-            final(self).variables == old(self).variables,
+            final(self).variables == old(self).variables, //# C07 find_node_mut.spec.aux3
 //@   endspec
 //@   ghost entry
         let ghost ts0 = self.types@;
@@ -1781,9 +1781,9 @@ impl TypeChecker {
 //@- ) if a_id == b_id => {
 //@   endrewrite
 //@   spec
-        requires old(self).inv2(), old(self).valid(a), old(self).valid(b),
-            vstd::std_specs::btree::key_obeys_cmp_spec::<(TyID, TyID)>(),
-        ensures final(self).inv2(), final(self).grows(old(self)), r is Ok ==> final(self).valid(r->Ok_0),
+        requires old(self).inv2(), old(self).valid(a), old(self).valid(b), //# C02,C07 sub_unify.spec.aux1
+            vstd::std_specs::btree::key_obeys_cmp_spec::<(TyID, TyID)>(), //# C02,C07 sub_unify.spec.aux2
+        ensures final(self).inv2(), final(self).grows(old(self)), r is Ok ==> final(self).valid(r->Ok_0), //# C02,C07 sub_unify.spec.aux3
             head_clash(ty_of(old(self).types@, a), ty_of(old(self).types@, b))
                 && rep0(old(self).types@, a.0 as int) != rep0(old(self).types@, b.0 as int)
                 && !old(seen)@.contains((TyID(rep0(old(self).types@, a.0 as int) as usize), TyID(rep0(old(self).types@, b.0 as int) as usize)))
@@ -1799,10 +1799,10 @@ impl TypeChecker {
 //@   loop 1 binder it
                     invariant
                         xs1.len() == ys1.len(), it.seq().len() == xs1.len(), //# C03,C05 sub_unify.loop1.tuple_lengths_match
-                        self.inv2(), self.grows(old(self)), self.types@.len() >= n1,
-                        vstd::std_specs::btree::key_obeys_cmp_spec::<(TyID, TyID)>(),
-                        forall|i: int| 0 <= i < xs1.len() ==> *(#[trigger] it.seq()[i]).0 == xs1[i] && *it.seq()[i].1 == ys1[i],
-                        forall|k: int| 0 <= k < xs1.len() ==> (#[trigger] xs1[k]).0 < n1 && (#[trigger] ys1[k]).0 < n1,
+                        self.inv2(), self.grows(old(self)), self.types@.len() >= n1, //# C02,C07 sub_unify.loop1.aux1
+                        vstd::std_specs::btree::key_obeys_cmp_spec::<(TyID, TyID)>(), //# C02,C07 sub_unify.loop1.aux2
+                        forall|i: int| 0 <= i < xs1.len() ==> *(#[trigger] it.seq()[i]).0 == xs1[i] && *it.seq()[i].1 == ys1[i], //# C07 sub_unify.loop1.aux3
+                        forall|k: int| 0 <= k < xs1.len() ==> (#[trigger] xs1[k]).0 < n1 && (#[trigger] ys1[k]).0 < n1, //# C07 sub_unify.loop1.aux4
 //@   endloop
 //@   ghost before-loop 2
                 let ghost n2 = self.types@.len(); let ghost xs2 = a_args@; let ghost ys2 = b_args@;
@@ -1810,44 +1810,44 @@ impl TypeChecker {
 //@   loop 2 binder it
                     invariant
                         xs2.len() == ys2.len(), it.seq().len() == xs2.len(), //# C03 sub_unify.loop2.arities_match
-                        self.inv2(), self.grows(old(self)), self.types@.len() >= n2,
-                        vstd::std_specs::btree::key_obeys_cmp_spec::<(TyID, TyID)>(),
-                        forall|i: int| 0 <= i < xs2.len() ==> *(#[trigger] it.seq()[i]).0 == xs2[i] && *it.seq()[i].1 == ys2[i],
-                        forall|k: int| 0 <= k < xs2.len() ==> (#[trigger] xs2[k]).0 < n2 && (#[trigger] ys2[k]).0 < n2,
+                        self.inv2(), self.grows(old(self)), self.types@.len() >= n2, //# C02,C07 sub_unify.loop2.aux1
+                        vstd::std_specs::btree::key_obeys_cmp_spec::<(TyID, TyID)>(), //# C02,C07 sub_unify.loop2.aux2
+                        forall|i: int| 0 <= i < xs2.len() ==> *(#[trigger] it.seq()[i]).0 == xs2[i] && *it.seq()[i].1 == ys2[i], //# C07 sub_unify.loop2.aux3
+                        forall|k: int| 0 <= k < xs2.len() ==> (#[trigger] xs2[k]).0 < n2 && (#[trigger] ys2[k]).0 < n2, //# C07 sub_unify.loop2.aux4
 //@   endloop
 //@   ghost before-loop 4
                 let ghost n4 = self.types@.len();
 //@   endghost
 //@   loop 4 binder it
                     invariant
-                        self.inv2(), self.grows(old(self)), self.types@.len() >= n4,
-                        vstd::std_specs::btree::key_obeys_cmp_spec::<(TyID, TyID)>(),
-                        vstd::std_specs::btree::key_obeys_cmp_spec::<String>(),
-                        fields_in_range(a_fields, n4 as int), fields_in_range(b_fields, n4 as int),
-                        forall|j: int| 0 <= j < it.seq().len() ==> b_fields@.contains_pair(*(#[trigger] it.seq()[j]).0, *it.seq()[j].1),
+                        self.inv2(), self.grows(old(self)), self.types@.len() >= n4, //# C02,C07 sub_unify.loop4.aux1
+                        vstd::std_specs::btree::key_obeys_cmp_spec::<(TyID, TyID)>(), //# C02,C07 sub_unify.loop4.aux2
+                        vstd::std_specs::btree::key_obeys_cmp_spec::<String>(), //# C02,C07 sub_unify.loop4.aux3
+                        fields_in_range(a_fields, n4 as int), fields_in_range(b_fields, n4 as int), //# C02,C07 sub_unify.loop4.aux4
+                        forall|j: int| 0 <= j < it.seq().len() ==> b_fields@.contains_pair(*(#[trigger] it.seq()[j]).0, *it.seq()[j].1), //# C07 sub_unify.loop4.aux5
 //@   endloop
 //@   ghost before-loop 5
                 let ghost n5 = self.types@.len(); let ghost xs5 = a_args@; let ghost ys5 = b_args@;
 //@   endghost
 //@   loop 5 binder it
                     invariant
-                        self.inv2(), self.grows(old(self)), self.types@.len() >= n5,
-                        vstd::std_specs::btree::key_obeys_cmp_spec::<(TyID, TyID)>(),
-                        it.seq().len() <= xs5.len(), it.seq().len() <= ys5.len(),
-                        forall|i: int| 0 <= i < it.seq().len() ==> *(#[trigger] it.seq()[i]).0 == xs5[i] && *it.seq()[i].1 == ys5[i],
-                        forall|k: int| 0 <= k < xs5.len() ==> (#[trigger] xs5[k]).0 < n5,
-                        forall|k: int| 0 <= k < ys5.len() ==> (#[trigger] ys5[k]).0 < n5,
+                        self.inv2(), self.grows(old(self)), self.types@.len() >= n5, //# C02,C07 sub_unify.loop5.aux1
+                        vstd::std_specs::btree::key_obeys_cmp_spec::<(TyID, TyID)>(), //# C02,C07 sub_unify.loop5.aux2
+                        it.seq().len() <= xs5.len(), it.seq().len() <= ys5.len(), //# C07 sub_unify.loop5.aux3
+                        forall|i: int| 0 <= i < it.seq().len() ==> *(#[trigger] it.seq()[i]).0 == xs5[i] && *it.seq()[i].1 == ys5[i], //# C07 sub_unify.loop5.aux4
+                        forall|k: int| 0 <= k < xs5.len() ==> (#[trigger] xs5[k]).0 < n5, //# C07 sub_unify.loop5.aux5
+                        forall|k: int| 0 <= k < ys5.len() ==> (#[trigger] ys5[k]).0 < n5, //# C07 sub_unify.loop5.aux6
 //@   endloop
 //@   ghost before-loop 7
                 let ghost n7 = self.types@.len();
 //@   endghost
 //@   loop 7 binder it
                     invariant
-                        self.inv2(), self.grows(old(self)), self.types@.len() >= n7,
-                        vstd::std_specs::btree::key_obeys_cmp_spec::<(TyID, TyID)>(),
-                        vstd::std_specs::btree::key_obeys_cmp_spec::<String>(),
-                        fields_in_range(a_variants, n7 as int), fields_in_range(b_variants, n7 as int),
-                        forall|j: int| 0 <= j < it.seq().len() ==> b_variants@.contains_pair(*(#[trigger] it.seq()[j]).0, *it.seq()[j].1),
+                        self.inv2(), self.grows(old(self)), self.types@.len() >= n7, //# C02,C07 sub_unify.loop7.aux1
+                        vstd::std_specs::btree::key_obeys_cmp_spec::<(TyID, TyID)>(), //# C02,C07 sub_unify.loop7.aux2
+                        vstd::std_specs::btree::key_obeys_cmp_spec::<String>(), //# C02,C07 sub_unify.loop7.aux3
+                        fields_in_range(a_variants, n7 as int), fields_in_range(b_variants, n7 as int), //# C02,C07 sub_unify.loop7.aux4
+                        forall|j: int| 0 <= j < it.seq().len() ==> b_variants@.contains_pair(*(#[trigger] it.seq()[j]).0, *it.seq()[j].1), //# C07 sub_unify.loop7.aux5
 //@   endloop
 //@   ghost before
 //@| self.union(a, b);
@@ -1860,8 +1860,8 @@ impl TypeChecker {
 //@   props C02 C03 C04 C05 C07
 //@   ret r
 //@   spec
-        requires old(self).inv2(), old(self).valid(a), old(self).valid(b),
-        ensures final(self).inv2(), final(self).grows(old(self)), r is Ok ==> final(self).valid(r->Ok_0),
+        requires old(self).inv2(), old(self).valid(a), old(self).valid(b), //# C02,C07 unify.spec.aux1
+        ensures final(self).inv2(), final(self).grows(old(self)), r is Ok ==> final(self).valid(r->Ok_0), //# C02,C07 unify.spec.aux2
             head_clash(ty_of(old(self).types@, a), ty_of(old(self).types@, b))
                 && rep0(old(self).types@, a.0 as int) != rep0(old(self).types@, b.0 as int) ==> r is Err, //# C03,C04,C05 unify.clashing_types_rejected
 //@   endspec
@@ -1875,9 +1875,9 @@ impl TypeChecker {
 //@   props C07
 //@   ret r
 //@   spec
-        requires old(self).inv2(), a is Some ==> old(self).valid(a->Some_0), b is Some ==> old(self).valid(b->Some_0),
-        ensures final(self).inv2(), final(self).grows(old(self)),
-            r is Ok && r->Ok_0 is Some ==> final(self).valid(r->Ok_0->Some_0),
+        requires old(self).inv2(), a is Some ==> old(self).valid(a->Some_0), b is Some ==> old(self).valid(b->Some_0), //# C07 unify_option.spec.aux1
+        ensures final(self).inv2(), final(self).grows(old(self)), //# C07 unify_option.spec.aux2
+            r is Ok && r->Ok_0 is Some ==> final(self).valid(r->Ok_0->Some_0), //# C07 unify_option.spec.aux3
             r is Ok ==> (r->Ok_0 is None <==> a is None && b is None), //# C03 unify_option.none_iff_both_none
 //@   endspec
 //@ end
@@ -1906,12 +1906,12 @@ impl TypeChecker {
 //@   why Verus only accepts a variable as closure parameter; naming the ignored argument changes nothing
 //@   endrewrite
 //@   spec
-        requires old(self).inv2(), old(self).valid(a), old(self).valid(ret),
-        ensures final(self).inv2(), final(self).grows(old(self)),
+        requires old(self).inv2(), old(self).valid(a), old(self).valid(ret), //# C07 constant_index.spec.aux1
+        ensures final(self).inv2(), final(self).grows(old(self)), //# C07 constant_index.spec.aux2
             (ty_of(old(self).types@, a) is Tuple && index >= ty_of(old(self).types@, a)->Tuple_0.len()) ==> r is Err, //# C05 constant_index.out_of_range_rejected
             ty_of(old(self).types@, a) is Unknown ==> r is Ok, //# C05 constant_index.unknown_deferred
             !(ty_of(old(self).types@, a) is Unknown) && !(ty_of(old(self).types@, a) is Tuple) ==> r is Err, //# C05 constant_index.non_tuple_rejected
-            r is Err && !(ty_of(old(self).types@, a) is Tuple) ==> r->Err_0.len() >= 1 && r->Err_0[0].span() == span,
+            r is Err && !(ty_of(old(self).types@, a) is Tuple) ==> r->Err_0.len() >= 1 && r->Err_0[0].span() == span, //# C07 constant_index.spec.aux3
 //@   endspec
 //@   ghost entry
         proof { lemma_view_members(self.types@, a); }
@@ -1924,21 +1924,21 @@ impl TypeChecker {
 //@   attr #[verifier::loop_isolation(false)]
 //@   ret r
 //@   spec
-        requires old(self).inv2(),
+        requires old(self).inv2(), //# C07 type_from_function.spec.aux1
             forall|k: int| 0 <= k < params@.len() ==> (#[trigger] params@[k]).1 < old(self).variables@.len(), //# C07 type_from_function.pre.params_in_range
-        ensures final(self).inv2(), final(self).grows(old(self)),
-            r is Ok ==> final(self).valid(r->Ok_0.0) && final(self).valid(r->Ok_0.1),
+        ensures final(self).inv2(), final(self).grows(old(self)), //# C07 type_from_function.spec.aux2
+            r is Ok ==> final(self).valid(r->Ok_0.0) && final(self).valid(r->Ok_0.1), //# C07 type_from_function.spec.aux3
             r is Ok ==> ty_of(final(self).types@, r->Ok_0.0) is Function, //# C03 type_from_function.builds_function_type
             r is Ok ==> ty_of(final(self).types@, r->Ok_0.0)->Function_0.len() == params@.len(), //# C03 type_from_function.arity_is_param_count
             r is Ok ==> (ty_of(final(self).types@, r->Ok_0.0)->Function_2 is Pure <==> pure) && !(ty_of(final(self).types@, r->Ok_0.0)->Function_2 is Undefined), //# C04 type_from_function.purity_from_literal
 //@   endspec
 //@   loop 1 binder it
             invariant
-                self.inv2(), self.grows(old(self)),
-                it.seq().len() == params@.len(),
-                forall|k: int| 0 <= k < params@.len() ==> *(#[trigger] it.seq()[k]) == params@[k],
-                args@.len() == it.index@,
-                forall|k: int| 0 <= k < args@.len() ==> self.valid(#[trigger] args@[k]),
+                self.inv2(), self.grows(old(self)), //# C07 type_from_function.loop1.aux1
+                it.seq().len() == params@.len(), //# C07 type_from_function.loop1.aux2
+                forall|k: int| 0 <= k < params@.len() ==> *(#[trigger] it.seq()[k]) == params@[k], //# C07 type_from_function.loop1.aux3
+                args@.len() == it.index@, //# C07 type_from_function.loop1.aux4
+                forall|k: int| 0 <= k < args@.len() ==> self.valid(#[trigger] args@[k]), //# C07 type_from_function.loop1.aux5
 //@   endloop
 //@   ghost before
 //@| let f = self.push_type(Type::Function(args, ret, purity));
@@ -1956,11 +1956,11 @@ impl TypeChecker {
 //@   attr #[verifier::exec_allows_no_decreases_clause]
 //@   ret r
 //@   spec
-        requires old(self).inv2(),
+        requires old(self).inv2(), //# C07 definition.spec.aux1
             *statement is Definition, //# C07 definition.pre.is_definition
             s_ok(*statement, old(self).variables@.len() as int), //# C07 definition.pre.tree_is_well_formed
-        ensures final(self).inv2(), final(self).grows(old(self)),
-            r is Ok && r->Ok_0 is Some ==> final(self).valid(r->Ok_0->Some_0),
+        ensures final(self).inv2(), final(self).grows(old(self)), //# C07 definition.spec.aux2
+            r is Ok && r->Ok_0 is Some ==> final(self).valid(r->Ok_0->Some_0), //# C07 definition.spec.aux3
             ctx.inside_pure && statement->Definition_kind is Mutable ==> r is Err, //# C04 definition.mutable_in_pure_rejected
             r is Ok ==> s_pur(old(self).variables@, *statement, ctx.inside_pure), //# C04 definition.pure_ok
             r is Ok ==> s_brk(*statement, ctx.inside_loop), //# C05 definition.break_ok
@@ -1982,10 +1982,10 @@ impl TypeChecker {
 //@   why profiling handle, compiled to () without the `timed` feature
 //@   endrewrite
 //@   spec
-        requires old(self).inv2(),
+        requires old(self).inv2(), //# C07 statement.spec.aux1
             s_ok(*statement, old(self).variables@.len() as int), //# C07 statement.pre.no_nested_declaration_and_vars_in_range
-        ensures final(self).inv2(), final(self).grows(old(self)),
-            r is Ok && r->Ok_0 is Some ==> final(self).valid(r->Ok_0->Some_0),
+        ensures final(self).inv2(), final(self).grows(old(self)), //# C07 statement.spec.aux2
+            r is Ok && r->Ok_0 is Some ==> final(self).valid(r->Ok_0->Some_0), //# C07 statement.spec.aux3
             (*statement is Break || *statement is Continue) && !ctx.inside_loop ==> r is Err, //# C05 statement.break_outside_loop_rejected
             *statement is Assignment && ctx.inside_pure ==> r is Err, //# C04 statement.assignment_in_pure_rejected
             *statement is Assignment && !assignable_ok(old(self).variables@, statement->Assignment_target) ==> r is Err, //# C04 statement.assignment_to_constant_rejected
@@ -2004,19 +2004,19 @@ impl TypeChecker {
 //@   attr #[verifier::loop_isolation(false)]
 //@   ret r
 //@   spec
-        requires old(self).inv2(),
+        requires old(self).inv2(), //# C07 expression_block.spec.aux1
             all_ok(statements@, old(self).variables@.len() as int), //# C07 expression_block.pre.statements_ok
-        ensures final(self).inv2(), final(self).grows(old(self)),
-            r is Ok && r->Ok_0.0 is Some ==> final(self).valid(r->Ok_0.0->Some_0),
-            r is Ok && r->Ok_0.1 is Some ==> final(self).valid(r->Ok_0.1->Some_0),
+        ensures final(self).inv2(), final(self).grows(old(self)), //# C07 expression_block.spec.aux2
+            r is Ok && r->Ok_0.0 is Some ==> final(self).valid(r->Ok_0.0->Some_0), //# C07 expression_block.spec.aux3
+            r is Ok && r->Ok_0.1 is Some ==> final(self).valid(r->Ok_0.1->Some_0), //# C07 expression_block.spec.aux4
             r is Ok ==> all_brk(statements@, ctx.inside_loop), //# C05 expression_block.break_ok
             r is Ok ==> all_pur(old(self).variables@, statements@, ctx.inside_pure), //# C04 expression_block.pure_ok
 //@   endspec
 //@   loop 1 binder it
             invariant
-                self.inv2(), self.grows(old(self)), it.seq().len() == statements@.len(),
-                forall|k: int| 0 <= k < statements@.len() ==> *(#[trigger] it.seq()[k]) == statements@[k],
-                ret is Some ==> self.valid(ret->Some_0),
+                self.inv2(), self.grows(old(self)), it.seq().len() == statements@.len(), //# C07 expression_block.loop1.aux1
+                forall|k: int| 0 <= k < statements@.len() ==> *(#[trigger] it.seq()[k]) == statements@[k], //# C07 expression_block.loop1.aux2
+                ret is Some ==> self.valid(ret->Some_0), //# C07 expression_block.loop1.aux3
                 forall|i: int| 0 <= i < it.index@ ==> s_brk(#[trigger] statements@[i], ctx.inside_loop), //# C05 expression_block.loop.break_ok
                 forall|i: int| 0 <= i < it.index@ ==> s_pur(old(self).variables@, #[trigger] statements@[i], ctx.inside_pure), //# C04 expression_block.loop.pure_ok
 //@   endloop
